@@ -61,7 +61,10 @@ def compare_models(a, b):
         if len(px) != len(py):
             return f'{type(x).__name__} #{x.id}: parameter count changed'
         for u, v in zip(px, py):
-            tol = PTOL + 2.0 ** -23 * max(abs(u), 1e-30) + (1e-6 * abs(u) if isinstance(x, BinaryCLT) else 0)
+            # single-precision storage applies to what the loader keeps in float32 arrays (weights, tables, histograms); the scalar
+            # parameters of Gaussian / Uniform leaves are Python floats on both sides: the 8-decimal rounding is all there is
+            single = 0.0 if isinstance(x, (Gaussian, Uniform)) else 2.0 ** -23 * max(abs(u), 1e-30)
+            tol = PTOL + single + (1e-6 * abs(u) if isinstance(x, BinaryCLT) else 0)
             if u == v:          # covers -inf == -inf
                 continue
             if math.isinf(u) or math.isinf(v):
@@ -290,6 +293,35 @@ def run(ctx):
         txt = round_trip(ctx, 'hand-built', root, rs, rep)
         if txt and ctx.driver_ok and getattr(root, 'children', None):
             model_document_check(ctx, root, txt, rep)
+        if ctx.n_new(with_input_only=True) >= 3:
+            return
+    # double-precision leaf parameters of large magnitude (unstandardised measurements): the format promises 8 DECIMALS, not 8 or 9
+    # significant digits
+    for k in range(6 if quick else 60):
+        rs = np.random.RandomState(np_seed(ctx.sub_rng('large-params', k)))
+        mag = 10.0 ** int(rs.randint(1, 7))
+        comps = []
+        for _ in range(int(rs.randint(2, 4))):
+            g = Gaussian(0, float(rs.uniform(-1, 1) * mag + rs.rand() * 1e-3), float(rs.uniform(0.05, 3.0) + rs.rand() * 1e-6))
+            u = Uniform(1, float(rs.uniform(-1, 1) * mag + rs.rand() * 1e-3), float(rs.uniform(0.5, 2.0) * mag * 0.01 + rs.rand() * 1e-6))
+            comps.append(Product(children=[g, u]))
+        w = rs.dirichlet(np.ones(len(comps))).astype(np.float32)
+        root = assign_ids(Sum(children=comps, weights=(w / w.sum()).astype(np.float32)))
+        ctx.count('large-double-precision-parameters')
+        ctx.case('large-params', nontrivial_key=('large-params', k), sample=dict(magnitude=mag))
+        rep = dict(kind='c13-large', k=k, seed=ctx.seed)
+        cur = root
+        for gen in range(2):
+            try:
+                txt, loaded = save_load(cur, via_path=bool(gen % 2), tag=f'large{k}_{gen}')
+            except Exception as ex:
+                ctx.violation(f'c13-raises:{type(ex).__name__}', f'save/load raised {type(ex).__name__}: {str(ex)[:200]} [large parameters]', replay=rep)
+                break
+            d = compare_models(root, loaded)
+            if d:
+                ctx.violation('c13-large-params', f'loaded model differs: {d} [double-precision parameters of magnitude {mag:g}, generation {gen + 1}]', replay=rep)
+                break
+            cur = loaded
         if ctx.n_new(with_input_only=True) >= 3:
             return
     # leaves FITTED (not constructed) with a domain that is not listed in increasing order: the fitted object keeps the caller's
